@@ -35,8 +35,8 @@ theorem step_inv (c : Cfg) (ch : UInt8) (h : Inv c) : StepOK (step true c ch) :=
     cases st <;> simp only [step] <;> (repeat' split) <;>
     first
     | trivial
-    | (simp_all [inTag, push, topText, popAttach, topSetAttr, ofOpt, StepOK]; done)
-    | (simp only [StepOK, push, topText, popAttach, topSetAttr, ofOpt]; constructor <;> simp_all [inTag, attach]; done)
+    | (simp_all [inTag, push, topText, popAttach, topSetAttr, ofOpt, StepOK, lengthLt2]; done)
+    | (simp only [StepOK, push, topText, popAttach, topSetAttr, ofOpt]; constructor <;> simp_all [inTag, attach, lengthLt2]; done)
     | (rcases h4 with h | h | h <;> subst h <;> simp only [StepOK] <;> constructor <;> simp_all [inTag]; done)
 
 
